@@ -958,26 +958,31 @@ theorem pshort_obj_along_is_replaced_cost {κ : Type} [AddCommMonoid κ] [Linear
 example : psAlongPath (addObj fun a b : Nat => (a - b) + (b - a)) .afterPos0 [0, 10, 20, 30, 40] 0 false 5 2 false 25 = some 20 := by
   decide
 
-/-- **never worse under its own objective, path level** (`_partial`).  FULL statement: for every additive objective with
-non-negative motion costs and cost-additive cut points, `pathCost out ≤ pathCost path` for the whole routine.  PROVED: every
-executed splice whose second sample is not snapped to the LAST vertex (`pos1 + 1 < size`) — from the model's own `alongPath`
-and cost test, through `pshort_obj_along_is_replaced_cost` and `pshort_splice_never_longer_of_own_cost_test`.  MISSING: the splice
-that ends at the last vertex (the list lemma `psSplice_pathLen_le_of_cost` is stated with `pos1 + 1 < size`), and the
-composition over the run (which is immediate from `pshort_obj_never_worse_own_objective` once that case is covered). -/
-theorem pshort_obj_never_worse_path_cost_partial {κ : Type} [AddCommMonoid κ] [LinearOrder κ] [IsOrderedAddMonoid κ]
+/-- **never worse under its own objective, path level, the WHOLE routine** (the property's clause "the shortcutting and cost-aware
+routines never return a path that is … worse under their own objective" for `partialShortcutPath`): for every additive objective
+(`combineCosts = +`, `identityCost = 0`, `isCostBetterThan = <` on a linearly ordered additive monoid) with non-negative motion costs
+and cost-additive interpolated states, every `checkMotion`, every draw stream, every step bound and every path,
+`cost(out) ≤ cost(path)`.  Covers the splice that ends at the LAST vertex (which `pshort_splice_never_longer_of_own_cost_test` /
+`pshort_never_longer` leave out: they assume `pos1 + 1 < size`).  False for the `.atPos0` variant
+(`pshort_along_from_pos0_accepts_worse_fails`).  IEEE rounding is executed in lock-step, not covered here. -/
+theorem pshort_obj_never_worse_path_cost {κ : Type} [AddCommMonoid κ] [LinearOrder κ] [IsOrderedAddMonoid κ]
+    (cm : σ → σ → Bool) (dist : σ → σ → Float) (interp : σ → σ → Float → σ)
     (d : σ → σ → κ) (hnn : ∀ a b, 0 ≤ d a b)
-    (st : List σ) (pos0 pos1 : Nat) (idx0 idx1 : Bool) (s0 s1 : σ)
-    (h01 : pos0 < pos1) (h1 : pos1 + 1 < st.length) (hs : psSkip pos0 idx0 pos1 idx1 = false)
-    (hc0 : idx0 = false → d (st[pos0]'(by omega)) s0 + d s0 (st[pos0 + 1]'(by omega)) =
-      d (st[pos0]'(by omega)) (st[pos0 + 1]'(by omega)))
-    (hc1 : idx1 = false → d (st[pos1]'(by omega)) s1 + d s1 (st[pos1 + 1]'h1) =
-      d (st[pos1]'(by omega)) (st[pos1 + 1]'h1))
-    (hv0 : idx0 = true → s0 = st[pos0]'(by omega)) (hv1 : idx1 = true → s1 = st[pos1]'(by omega))
-    (along : κ) (ha : psAlongPath (addObj d) .afterPos0 st pos0 idx0 s0 pos1 idx1 s1 = some along)
-    (hb : (addObj d).better along ((addObj d).motion s0 s1) = false)
-    {out : List σ} (h : psSplice st pos0 idx0 s0 pos1 idx1 s1 = some out) :
-    pathLen d out ≤ pathLen d st :=
-  psSplice_cost_le_of_own_test d hnn st pos0 pos1 idx0 idx1 s0 s1 h01 h1 hs hc0 hc1 hv0 hv1 along ha hb h
+    (hadd : ∀ a b t, d a (interp a b t) + d (interp a b t) b = d a b)
+    {u : Nat → Float} {ms me : Nat} {rr snap : Float} {path out : List σ} {r : Bool}
+    (h : partialShortcutPathObj { cm := cm, dist := dist, interp := interp, O := addObj d } .afterPos0 u ms me rr snap path =
+      some (out, r)) :
+    pathLen d out ≤ pathLen d path :=
+  (partialShortcutPathObj_steps (E := { cm := cm, dist := dist, interp := interp, O := addObj d })
+    (cut := fun a b s => d a s + d s b = d a b) hadd h).pathLen_le hnn
+
+/-- non-vacuity of the step the theorem is about: a splice that ENDS AT THE LAST VERTEX (first sample 5 inside segment 0–10, second
+sample snapped to the last vertex 30) passes the routine's own test (along = 25 = chord) and is a `PsCostStepD` -/
+example : PsCostStepD (addObj fun a b : Nat => (a - b) + (b - a)) .afterPos0 (fun _ _ => true)
+    (fun a b s => ((a - s) + (s - a)) + ((s - b) + (b - s)) = (a - b) + (b - a)) [0, 10, 20, 30] [0, 5, 30] :=
+  .mk [0, 10, 20, 30] 0 3 false true 5 30 [0, 5, 30] 25 (by decide) (by decide)
+    ⟨by decide, fun h => Bool.noConfusion h, fun _ => ⟨by decide, by decide⟩⟩
+    ⟨by decide, fun _ => by decide, fun h => Bool.noConfusion h⟩ rfl (by decide) (by decide) (by decide)
 
 /-- the states of the witness below: vertices 0 1 2 3, cut points 4 (inside 0–1) and 5 (inside 2–3); every segment costs 10, the
 cuts are at half cost, the chord 4 → 5 costs 25 (it crosses an expensive region), every other pair 100 -/
